@@ -1,0 +1,52 @@
+//go:build verif
+// +build verif
+
+package lowleveljpeg
+
+// Exported views of unexported tables, constants and state, for the /verif
+// C18 correspondence check. Compiled only with -tags verif. New file; nothing
+// here changes the behaviour of the package.
+
+// VerifHuffmanBitWriters returns a copy of the four Huffman encoding LUTs.
+func VerifHuffmanBitWriters() (ret [4][256]uint32) {
+	for i := range huffmanBitWriters {
+		ret[i] = huffmanBitWriters[i]
+	}
+	return ret
+}
+
+// VerifHardCodedDHTSegments returns the two hard-coded DHT segments.
+func VerifHardCodedDHTSegments() string { return hardCodedDHTSegments }
+
+// VerifZigzag returns a copy of the zigzag table.
+func VerifZigzag() [64]uint8 { return zigzag }
+
+// VerifBitCount returns a copy of the bitCount table.
+func VerifBitCount() [256]byte { return bitCount }
+
+// VerifCosines returns a copy of the cosines table.
+func VerifCosines() [32]int32 { return cosines }
+
+// VerifBiasAndClamp returns a copy of the biasAndClamp table.
+func VerifBiasAndClamp() [1024]uint8 { return biasAndClamp }
+
+// VerifStandardQuantizationFactors returns a copy of Tables K.1 and K.2.
+func VerifStandardQuantizationFactors() [2]QuantizationFactors { return standardQuantizationFactors }
+
+// VerifFixedPoints returns fixedPointHalf and fixedPointInv2Sqrt2.
+func VerifFixedPoints() (half int64, inv2Sqrt2 int64) { return fixedPointHalf, fixedPointInv2Sqrt2 }
+
+// VerifDiv calls the unexported div.
+func VerifDiv(a, b int16) int16 { return div(a, b) }
+
+// VerifBufLen returns len(Encoder.buf).
+func VerifBufLen() int { return len(Encoder{}.buf) }
+
+// VerifState returns the Encoder's observable private state.
+func (e *Encoder) VerifState() (hasReturnedError bool, colorType ColorType, prevDC [3]int16, numAddsRemaining uint32, bitsV uint32, bitsN uint32) {
+	return e.hasReturnedError, e.colorType, e.prevDC, e.numAddsRemaining, e.bitsV, e.bitsN
+}
+
+// VerifSetNumAddsRemaining overrides numAddsRemaining (so that the end of a
+// huge image can be reached without millions of AddN calls).
+func (e *Encoder) VerifSetNumAddsRemaining(n uint32) { e.numAddsRemaining = n }
